@@ -4,6 +4,21 @@ CK = "src/allmydata/immutable/checker.py"
 FN = "src/allmydata/immutable/filenode.py"
 RP = "src/allmydata/immutable/repairer.py"
 ND = "src/allmydata/immutable/downloader/node.py"
+LY = "src/allmydata/immutable/layout.py"
+
+# ReadBucketProxy state (C45.11)
+RBP_INIT = "    def __init__(self, rref, server, storage_index):\n"
+RBP_HEAD = "class ReadBucketProxy:\n\n" + RBP_INIT
+PARSE_HEAD = "        precondition(len(data) >= 0x4)\n"
+PARSE_FRESH = PARSE_HEAD + "        self._offsets = {}\n"
+# WriteBucketProxy.close (C45.12 = C06.8 / C06.9)
+CLOSE_IF = ("        if self._write_buffer.get_queued_bytes() > 0:\n"
+            "            d = self._actually_write()\n"
+            "        else:\n"
+            "            # No data queued, don't send empty string write.\n"
+            "            d = defer.succeed(True)\n")
+CLOSE_TAIL = ("        d.addCallback(lambda _: self._rref.callRemote(\"close\"))\n"
+              "        return d\n")
 
 _ROOTFIX = ("            try:\n                # the root of the block hash tree is this share's leaf of the\n"
        "                # share hash tree, not whatever the share itself claims\n"
@@ -224,6 +239,82 @@ MUTANTS = [
       "            if not share_hash:\n                raise BadOrMissingHash()\n"
       "            self.block_hash_tree.set_hashes({0: share_hash})\n"
       "        d.addCallback(_got_share_hashes)", None, edits=[(CK, _ROOTFIX, _ROOTUNFIX)]),
+    # -- C45.11 per-instance state of the proxies
+    M("offsets-declared-at-class-level", LY, RBP_HEAD,                       # seeded C45-E
+      "class ReadBucketProxy:\n\n    _version: int | None = None\n    _fieldsize: int | None = None\n"
+      "    _fieldstruct: str | None = None\n    _offsets: dict[str, int] = {}\n\n" + RBP_INIT, "C45.11",
+      edits=[(LY, PARSE_FRESH, PARSE_HEAD)]),
+    M("offsets-class-dict-cleared-not-replaced", LY, RBP_HEAD,
+      "class ReadBucketProxy:\n\n    _offsets = dict()\n\n" + RBP_INIT, "C45.11",
+      edits=[(LY, PARSE_FRESH, PARSE_HEAD + "        self._offsets.clear()\n")]),
+    M("offsets-mutable-default-argument", LY,
+      "    def __init__(self, rref, server, storage_index):\n        self._rref = rref\n        self._server = server\n"
+      "        self._storage_index = storage_index\n        self._started = False # sent request to server",
+      "    def __init__(self, rref, server, storage_index, offsets={}):\n        self._rref = rref\n        self._server = server\n"
+      "        self._storage_index = storage_index\n        self._offsets = offsets\n        self._started = False # sent request to server",
+      "C45.11", edits=[(LY, PARSE_FRESH, PARSE_HEAD)]),
+    M("offsets-cached-per-storage-index", LY, "FORCE_V2 = False #",           # all shares of a file have one SI
+      "_parsed_headers = {}\nFORCE_V2 = False #", "C45.11",
+      edits=[(LY, PARSE_FRESH, PARSE_HEAD + "        self._offsets = _parsed_headers.setdefault(self._storage_index, {})\n")]),
+    M("offsets-from-class-template", LY, RBP_HEAD,
+      "class ReadBucketProxy:\n\n    _NO_OFFSETS = {}\n\n" + RBP_INIT, "C45.11",
+      edits=[(LY, PARSE_FRESH, PARSE_HEAD + "        self._offsets = self._NO_OFFSETS\n")]),
+    M("offsets-class-level-updated-in-bulk", LY, RBP_HEAD,
+      "class ReadBucketProxy:\n\n    _offsets = {}\n\n" + RBP_INIT, "C45.11",
+      edits=[(LY, PARSE_FRESH, PARSE_HEAD),
+             (LY, "            self._offsets[field_name] = offset\n        return self._offsets\n",
+              "            self._offsets.update({field_name: offset})\n        return self._offsets\n")]),
+    # sibling site: the write proxy's offset table (one WriteBucketProxy per share being repaired)
+    M("write-proxy-offsets-at-class-level", LY,
+      "    fieldsize = 4\n    fieldstruct = \">L\"\n", "    fieldsize = 4\n    fieldstruct = \">L\"\n    _offsets = {}\n", "C45.11",
+      edits=[(LY, "            raise FileTooLargeError(\"This file is too large to be uploaded (data_size).\")\n\n"
+              "        offsets = self._offsets = {}\n        x = 0x24\n",
+              "            raise FileTooLargeError(\"This file is too large to be uploaded (data_size).\")\n\n"
+              "        offsets = self._offsets\n        x = 0x24\n")]),
+    M("benign-write-proxy-offsets-class-default-unused", LY,
+      "    fieldsize = 4\n    fieldstruct = \">L\"\n", "    fieldsize = 4\n    fieldstruct = \">L\"\n    _offsets = {}\n", None),
+    M("benign-offsets-declared-none", LY, RBP_HEAD,
+      "class ReadBucketProxy:\n\n    _version: int | None = None\n    _offsets: dict[str, int] | None = None\n\n" + RBP_INIT, None),
+    M("benign-offsets-class-default-still-rebound", LY, RBP_HEAD,
+      "class ReadBucketProxy:\n\n    _offsets: dict[str, int] = {}\n\n" + RBP_INIT, None),
+    M("benign-offsets-class-default-bound-in-init", LY,
+      "class ReadBucketProxy:\n\n    def __init__(self, rref, server, storage_index):\n        self._rref = rref\n",
+      "class ReadBucketProxy:\n\n    _offsets: dict[str, int] = {}\n\n"
+      "    def __init__(self, rref, server, storage_index):\n        self._offsets = {}\n        self._rref = rref\n", None,
+      edits=[(LY, PARSE_FRESH, PARSE_HEAD)]),
+    M("benign-offsets-class-default-bound-before-parse", LY, RBP_HEAD,
+      "class ReadBucketProxy:\n\n    _offsets: dict[str, int] = {}\n\n" + RBP_INIT, None,
+      edits=[(LY, PARSE_FRESH, PARSE_HEAD),
+             (LY, "        self._started = True\n        # TODO: for small shares, read the whole bucket in _start()\n",
+              "        self._started = True\n        self._offsets = {}\n")]),
+    M("benign-offsets-built-in-a-local", LY, RBP_HEAD,
+      "class ReadBucketProxy:\n\n    _offsets: dict[str, int] = {}\n\n" + RBP_INIT, None,
+      edits=[(LY, PARSE_FRESH, PARSE_HEAD + "        offsets = {}\n"),
+             (LY, "            self._offsets[field_name] = offset\n        return self._offsets\n",
+              "            offsets[field_name] = offset\n        self._offsets = offsets\n        return offsets\n")]),
+    M("benign-offsets-alias", LY,
+      "            self._offsets[field_name] = offset\n        return self._offsets\n",
+      "            table = self._offsets\n            table[field_name] = offset\n        return self._offsets\n", None),
+    # -- C45.12 (C06.8 / C06.9) a repaired share counts only when every write of it was acknowledged
+    M("final-write-and-close-back-to-back", LY, CLOSE_IF + CLOSE_TAIL,      # seeded C45-F
+      "        if self._write_buffer.get_queued_bytes() > 0:\n"
+      "            d = self._actually_write()\n"
+      "            d.addErrback(log.err, \"Error from remote call to write an immutable write bucket\")\n"
+      "        return self._rref.callRemote(\"close\")\n", "C45.12"),
+    M("close-sent-after-failed-write-too", LY, CLOSE_TAIL,
+      "        d.addBoth(lambda _: self._rref.callRemote(\"close\"))\n        return d\n", "C45.12"),
+    M("close-and-final-write-gathered", LY, CLOSE_TAIL,
+      "        d2 = self._rref.callRemote(\"close\")\n        return defer.gatherResults([d, d2])\n", "C45.12.9"),
+    M("batched-write-outcome-dropped", LY,
+      "            return self._actually_write()\n        else:\n            return defer.succeed(False)\n",
+      "            self._actually_write()\n        return defer.succeed(False)\n", "C45.12.8"),
+    M("close-without-final-flush", LY, CLOSE_IF, "        d = defer.succeed(True)\n", "C45.12.9"),
+    M("benign-close-named-callback", LY, CLOSE_TAIL,
+      "        def _send_close(_ign):\n            return self._rref.callRemote(\"close\")\n"
+      "        d.addCallback(_send_close)\n        return d\n", None),
+    M("benign-close-guard-inverted", LY, CLOSE_IF,
+      "        queued = self._write_buffer.get_queued_bytes()\n        if queued == 0:\n"
+      "            d = defer.succeed(True)\n        else:\n            d = self._actually_write()\n", None),
     # -- benign
     M("benign-segsize-is-not-none", ND,
       "        if self.segment_size:\n            return defer.succeed(self.segment_size)\n",
